@@ -160,3 +160,113 @@ def make_run_task(cat):
         return {'evals': evals, 'nt': nt, 'cls': cls, 'discards': discards,
                 'fails': list(fails.values()), 'samples': samples}
     return run_task
+
+
+# ---- every width 1..Wmax with edge operands -----------------------------------------------------------------------
+def _edge_values(w):
+    m = mask(w)
+    vals = [0, 1, m, m >> 1, 1 << (w - 1), m - 1 if w > 1 else 0, m // 3, (m // 3) << 1 & m]
+    # decimal boundaries matter for BCD style blocks, powers of two +-1 for shifters and counters
+    k = 1
+    while 10 ** k <= m:
+        k += 1
+    if k >= 2:
+        vals += [10 ** (k - 1), 10 ** (k - 1) - 1]
+    out = []
+    for v in vals:
+        v &= m
+        if v not in out:
+            out.append(v)
+    return out
+
+
+def width_cfgs(entry, w):
+    """configurations of the entry in which every width key is w (other keys as in its smallest legal configuration);
+    blocks whose result width has a natural relation to the operand width add those as well"""
+    if w > WIDTH_CAP.get(entry.name, 10 ** 9):
+        return []
+    try:
+        template = next(iter(entry.small(4)))
+    except StopIteration:
+        return []
+    wkeys = [k for k in template if k in ('w', 'wa', 'wb', 'wr', 'ws', 'wd')]
+    if not wkeys or any(not isinstance(template[k], int) for k in wkeys):
+        return []
+    cfgs = [dict(template, **{k: w for k in wkeys})]
+    if ('Shift' in entry.name or 'Rotate' in entry.name) and 'wb' in wkeys:
+        # the second operand is an amount: as wide as needed to address every bit position, plus one
+        nb = max(1, (w - 1).bit_length())
+        if 'Rotate' in entry.name:
+            # every stage constant 2**i (i < wb) must itself be a legal rotation amount (<= wa), see cat_arith._rot_small
+            cfgs = [dict(cfgs[0], wb=max(1, w.bit_length())), dict(cfgs[0], wb=max(1, w.bit_length() - 1))]
+        else:
+            cfgs = [dict(cfgs[0], wb=nb), dict(cfgs[0], wb=nb + 1)]
+    if entry.name == 'BinaryToBCD':
+        need = len(str(mask(w)))
+        cfgs = [dict(template, wa=w, wr=4 * d) for d in (need - 1, need, need + 1) if d >= 1]
+    elif 'wr' in wkeys and 'wa' in wkeys:
+        cfgs.append(dict(cfgs[0], wr=w + 1))
+        cfgs.append(dict(cfgs[0], wr=2 * w))
+    return cfgs
+
+
+def make_width_task(cat):
+    run_case = make_run_case(cat)
+
+    def run_task(task):
+        entry = cat[task['block']]
+        evals = nt = 0
+        cls = {}
+        discards = {}
+        fails = {}
+        for w in task['widths']:
+            for cfg in width_cfgs(entry, w):
+                try:
+                    inw = entry.inw(cfg)
+                except Exception:
+                    continue
+                pools = [_edge_values(x) for x in inw]
+                # diagonal + a few mixed vectors instead of the full product
+                vecs = []
+                L = max(len(p) for p in pools) if pools else 0
+                for i in range(L):
+                    vecs.append([p[i % len(p)] for p in pools])
+                    vecs.append([p[(i + j) % len(p)] for j, p in enumerate(pools)])
+                seen = set()
+                for vec in vecs:
+                    if tuple(vec) in seen:
+                        continue
+                    seen.add(tuple(vec))
+                    case = {'block': task['block'], 'cfg': cfg, 'in': vec}
+                    r = run_case(case)
+                    if r['discard']:
+                        discards[r['discard']] = discards.get(r['discard'], 0) + 1
+                        continue
+                    evals += 1
+                    nt += 1 if r['nt'] else 0
+                    if r['fail']:
+                        sg = r['fail']['sig']
+                        if sg not in fails:
+                            fails[sg] = {'sig': sg, 'msg': r['fail']['msg'], 'count': 1, 'case': case}
+                        else:
+                            fails[sg]['count'] += 1
+        cls[task['block'] + ':every_width'] = evals
+        return {'evals': evals, 'nt': nt, 'cls': cls, 'discards': discards, 'fails': list(fails.values()), 'samples': []}
+    return run_task
+
+
+# construction time of the recursive leading-zero counter explodes above 64 bits (30 s at 70, minutes at 100): a matter
+# of speed, not of the property; it is exercised up to 64 bits
+WIDTH_CAP = {'CountLeadingZeros': 64}
+QUICK_WIDTHS = list(range(1, 18)) + [24, 31, 32, 33, 48, 63, 64, 65, 70]
+
+
+def width_tasks(cat, widths, chunk=35):
+    tasks = []
+    widths = list(widths)
+    for name in sorted(cat):
+        if name.startswith('hlp.'):
+            continue
+        for lo in range(0, len(widths), chunk):
+            tasks.append({'block': name, 'widths': widths[lo:lo + chunk]})
+    return tasks
